@@ -7,38 +7,51 @@ import CfVerif.Proofs.C11Cache
 namespace CfVerif.C11
 open CfVerif
 
-/-- what a process (or a sequence of processes) does with the cache directory -/
+/-- what processes (and the outside world) do with the cache directory -/
 inductive Op
-  | insert (crc : Nat) (t : Toc)                 -- `TocCache.insert`, completed
+  | insert (crc : Nat) (t : Toc)                 -- `TocCache.insert`
   | insertCut (crc : Nat) (t : Toc) (k : Nat)    -- ... cut after `k` bytes (crash, write error)
   | restart                                      -- a new process: `TocCache(rw_cache=d)`
+  | unlink (crc : Nat)                           -- the file of `crc` is removed behind the cache's back (directory cleaned)
+  | block (crc : Nat) (g : Ghost)                -- ... or replaced by something `open` cannot read (directory, dangling
+                                                 --     link, no permission)
 
-def applyOp (d : Path) (s : FS × Cache) : Op → FS × Cache
-  | .insert crc t => s.2.insert s.1 crc t
-  | .insertCut crc t k => s.2.insertCut s.1 crc t k
+/-- the file system, the live `TocCache`, and (ghost state for the statement) the table whose write was last STARTED
+under each checksum -/
+abbrev HSt := (FS × Cache) × (Nat → Option Toc)
+
+def FS.unlink (fs : FS) (p : Path) : FS :=
+  { fs with files := fs.files.filter (fun f => f.1 ≠ p), ghosts := fs.ghosts.filter (fun g => g.1 ≠ p) }
+
+def setH (h : Nat → Option Toc) (crc : Nat) (t : Toc) : Nat → Option Toc := fun x => if x = crc then some t else h x
+
+def applyOp (d : Path) (s : HSt) : Op → HSt
+  | .insert crc t =>
+    (s.1.2.insert s.1.1 crc t, if (s.1.1.openW d (storedName d crc)).isSome then setH s.2 crc t else s.2)
+  | .insertCut crc t k =>
+    (s.1.2.insertCut s.1.1 crc t k, if (s.1.1.openW d (storedName d crc)).isSome then setH s.2 crc t else s.2)
   | .restart =>
-    match Cache.init s.1 none (some d) with
-    | .ok r => r
+    match Cache.init s.1.1 none (some d) with
+    | .ok r => (r, s.2)
     | .error _ => s
+  | .unlink crc => ((s.1.1.unlink (storedName d crc), s.1.2), s.2)
+  | .block crc g =>
+    (({ s.1.1.unlink (storedName d crc) with ghosts := (s.1.1.unlink (storedName d crc)).ghosts ++ [(storedName d crc, g)] }, s.1.2), s.2)
 
-def applyOps (d : Path) (s : FS × Cache) (ops : List Op) : FS × Cache := ops.foldl (applyOp d) s
-
-/-- the table last written (completely or not) under each checksum -/
-def lastWritten (h : Nat → Option Toc) : List Op → Nat → Option Toc
-  | [], crc => h crc
-  | .insert c t :: r, crc => lastWritten (fun x => if x = c then some t else h x) r crc
-  | .insertCut c t _ :: r, crc => lastWritten (fun x => if x = c then some t else h x) r crc
-  | .restart :: r, crc => lastWritten h r crc
+def applyOps (d : Path) (s : HSt) (ops : List Op) : HSt := ops.foldl (applyOp d) s
 
 def Op.Ok : Op → Prop
   | .insert crc t => crc < 4294967296 ∧ TocValid t ∧ TocWF t
   | .insertCut crc t _ => crc < 4294967296 ∧ TocValid t ∧ TocWF t
   | .restart => True
+  | .unlink crc => crc < 4294967296
+  | .block crc _ => crc < 4294967296
 
 structure Inv (d : Path) (h : Nat → Option Toc) (s : FS × Cache) : Prop where
   writable : s.1.canWrite d = true
   rw : s.2.rw = some d
   names : ∀ p ∈ s.1.files.map (·.1), ∃ crc, crc < 4294967296 ∧ p = storedName d crc
+  gnames : ∀ p ∈ s.1.ghosts.map (·.1), ∃ crc, crc < 4294967296 ∧ p = storedName d crc
   content : ∀ crc, crc < 4294967296 → ∀ bs, s.1.read (storedName d crc) = some bs →
     ∃ t k, h crc = some t ∧ TocValid t ∧ TocWF t ∧ bs = (encodeText (printToc t)).take k
   cached : s.2.Stored
@@ -55,9 +68,9 @@ theorem canWrite_write (fs : FS) (p : Path) (b : List UInt8) (d : Path) : (fs.wr
 theorem inv_write (d : Path) (h : Nat → Option Toc) (fs : FS) (c c' : Cache) (crc : Nat) (t : Toc) (k : Nat)
     (hc : crc < 4294967296) (hv : TocValid t) (hwf : TocWF t) (hi : Inv d h (fs, c))
     (hrw : c'.rw = some d) (hst : c'.Stored) :
-    Inv d (fun x => if x = crc then some t else h x)
+    Inv d (setH h crc t)
       (fs.write (storedName d crc) ((encodeText (printToc t)).take k), c') := by
-  refine ⟨hi.writable, hrw, ?_, ?_, hst⟩
+  refine ⟨hi.writable, hrw, ?_, hi.gnames, ?_, hst⟩
   · intro p hp
     rcases (writeFile_paths fs.files _ _ p).1 hp with h1 | h1
     · exact ⟨crc, hc, h1⟩
@@ -69,41 +82,109 @@ theorem inv_write (d : Path) (h : Nat → Option Toc) (fs : FS) (c c' : Cache) (
     · have := storedName_inj hc' hc he
       subst this
       simp only [if_true, Option.some.injEq] at hr
-      exact ⟨t, k, by simp, hv, hwf, hr.symm⟩
+      exact ⟨t, k, by simp [setH], hv, hwf, hr.symm⟩
     · have hne : crc' ≠ crc := fun e => he (by rw [e])
       simp only [he, if_false] at hr
       obtain ⟨t', k', h1, h2, h3, h4⟩ := hi.content crc' hc' bs hr
-      exact ⟨t', k', by simp [hne, h1], h2, h3, h4⟩
+      exact ⟨t', k', by simp [setH, hne, h1], h2, h3, h4⟩
 
-theorem glob_subset (fs : FS) (d : Path) : ∀ p ∈ glob fs d, p ∈ fs.files.map (·.1) := by
+theorem glob_subset (fs : FS) (d : Path) :
+    ∀ p ∈ glob fs d, p ∈ fs.files.map (·.1) ∨ p ∈ fs.ghosts.map (·.1) := by
   intro p hp
   unfold glob at hp
-  obtain ⟨f, hf, hfp⟩ := List.mem_map.1 hp
-  exact List.mem_map.2 ⟨f, (List.mem_filter.1 hf).1, hfp⟩
+  rcases List.mem_append.1 hp with h | h
+  · obtain ⟨f, hf, hfp⟩ := List.mem_map.1 h
+    exact Or.inl (List.mem_map.2 ⟨f, (List.mem_filter.1 hf).1, hfp⟩)
+  · obtain ⟨f, hf, hfp⟩ := List.mem_map.1 h
+    exact Or.inr (List.mem_map.2 ⟨f, (List.mem_filter.1 hf).1, hfp⟩)
 
-theorem inv_step (d : Path) (h : Nat → Option Toc) (s : FS × Cache) (op : Op) (hok : op.Ok) (hi : Inv d h s) :
-    Inv d (lastWritten h [op]) (applyOp d s op) := by
-  obtain ⟨fs, c⟩ := s
+theorem inv_openW (d : Path) (h : Nat → Option Toc) (fs fs' : FS) (c : Cache) (p : Path)
+    (ho : fs.openW d p = some fs') (hi : Inv d h (fs, c)) : Inv d h (fs', c) := by
+  obtain ⟨e1, e2, e3, _, e5⟩ := openW_some ho
+  refine ⟨?_, hi.rw, ?_, ?_, ?_, hi.cached⟩
+  · have := hi.writable; unfold FS.canWrite at this ⊢; simp only at this ⊢; rw [e2, e3]; exact this
+  · simp only; rw [e1]; exact hi.names
+  · intro q hq
+    obtain ⟨g, hg, hgq⟩ := List.mem_map.1 hq
+    exact hi.gnames q (List.mem_map.2 ⟨g, e5 g hg, hgq⟩)
+  · intro crc hc bs hr
+    simp only at hr
+    rw [read_openW ho] at hr
+    exact hi.content crc hc bs hr
+
+theorem find_filter_ne (fl : List (Path × List UInt8)) (p q : Path) :
+    ((fl.filter (fun f => f.1 ≠ p)).find? (·.1 = q)).map (·.2) = if q = p then none else (fl.find? (·.1 = q)).map (·.2) := by
+  induction fl with
+  | nil => simp
+  | cons f r ih =>
+    obtain ⟨f1, f2⟩ := f
+    by_cases h1 : f1 = p
+    · subst h1
+      by_cases h2 : q = f1
+      · subst h2; simp [List.filter_cons] at ih ⊢; first | exact ih | done
+      · have : ¬ f1 = q := fun e => h2 e.symm
+        simp [List.filter_cons, this, h2] at ih ⊢; exact ih
+    · by_cases h2 : f1 = q
+      · subst h2
+        simp [List.filter_cons, h1]
+      · simp only [List.filter_cons, h1, ne_eq, not_false_eq_true, decide_true, if_true, List.find?_cons, h2, decide_false]
+        exact ih
+
+theorem read_unlink (fs : FS) (p q : Path) : (fs.unlink p).read q = if q = p then none else fs.read q := by
+  unfold FS.read FS.unlink
+  exact find_filter_ne fs.files p q
+
+theorem inv_unlink (d : Path) (h : Nat → Option Toc) (fs : FS) (c : Cache) (p : Path) (hi : Inv d h (fs, c)) :
+    Inv d h (fs.unlink p, c) := by
+  refine ⟨hi.writable, hi.rw, ?_, ?_, ?_, hi.cached⟩
+  · intro q hq
+    obtain ⟨f, hf, hfq⟩ := List.mem_map.1 hq
+    exact hi.names q (List.mem_map.2 ⟨f, (List.mem_filter.1 hf).1, hfq⟩)
+  · intro q hq
+    obtain ⟨f, hf, hfq⟩ := List.mem_map.1 hq
+    exact hi.gnames q (List.mem_map.2 ⟨f, (List.mem_filter.1 hf).1, hfq⟩)
+  · intro crc hc bs hr
+    simp only at hr
+    rw [read_unlink] at hr
+    split at hr
+    · cases hr
+    · exact hi.content crc hc bs hr
+
+theorem inv_step (d : Path) (s : HSt) (op : Op) (hok : op.Ok) (hi : Inv d s.2 s.1) :
+    Inv d (applyOp d s op).2 (applyOp d s op).1 := by
+  obtain ⟨⟨fs, c⟩, h⟩ := s
   cases op with
   | insert crc t =>
     obtain ⟨hc, hv, hwf⟩ := hok
-    simp only [applyOp, lastWritten]
-    rw [insert_ok fs c crc t d hi.rw hi.writable]
-    have := inv_write d h fs c { c with files := c.files ++ [storedName d crc] } crc t (encodeText (printToc t)).length hc hv hwf hi hi.rw
-      (by
-        intro p hp
-        rcases List.mem_append.1 hp with h1 | h1
-        · exact hi.cached p h1
-        · simp only [List.mem_singleton] at h1; exact ⟨d, crc, hc, h1⟩)
-    rw [List.take_length] at this
-    exact this
+    simp only [applyOp]
+    cases ho : fs.openW d (storedName d crc) with
+    | none =>
+      rw [insert_blocked fs c crc t d hi.rw ho]
+      simpa using hi
+    | some fs' =>
+      rw [insert_ok fs fs' c crc t d hi.rw ho]
+      have hi' := inv_openW d h fs fs' c _ ho hi
+      have := inv_write d h fs' c { c with files := c.files ++ [storedName d crc] } crc t (encodeText (printToc t)).length hc hv hwf hi' hi.rw
+        (by
+          intro p hp
+          rcases List.mem_append.1 hp with h1 | h1
+          · exact hi.cached p h1
+          · simp only [List.mem_singleton] at h1; exact ⟨d, crc, hc, h1⟩)
+      rw [List.take_length] at this
+      simpa using this
   | insertCut crc t k =>
     obtain ⟨hc, hv, hwf⟩ := hok
-    simp only [applyOp, lastWritten]
-    rw [insertCut_ok fs c crc t k d hi.rw hi.writable]
-    exact inv_write d h fs c c crc t k hc hv hwf hi hi.rw hi.cached
+    simp only [applyOp]
+    cases ho : fs.openW d (storedName d crc) with
+    | none =>
+      rw [insertCut_blocked fs c crc t k d hi.rw ho]
+      simpa using hi
+    | some fs' =>
+      rw [insertCut_ok fs fs' c crc t k d hi.rw ho]
+      have hi' := inv_openW d h fs fs' c _ ho hi
+      simpa using inv_write d h fs' c c crc t k hc hv hwf hi' hi.rw hi.cached
   | restart =>
-    simp only [applyOp, lastWritten]
+    simp only [applyOp]
     have hw := hi.writable
     unfold FS.canWrite at hw
     simp only [Bool.and_eq_true, Bool.not_eq_true'] at hw
@@ -111,29 +192,32 @@ theorem inv_step (d : Path) (h : Nat → Option Toc) (s : FS × Cache) (op : Op)
       unfold Cache.init
       simp only [List.nil_append, hw.2, if_true]
     rw [e]
-    refine ⟨hi.writable, rfl, hi.names, hi.content, ?_⟩
+    refine ⟨hi.writable, rfl, hi.names, hi.gnames, hi.content, ?_⟩
     intro p hp
-    obtain ⟨crc, hc, hp'⟩ := hi.names p (glob_subset fs d p hp)
-    exact ⟨d, crc, hc, hp'⟩
+    rcases glob_subset fs d p hp with h1 | h1
+    · obtain ⟨crc, hc, hp'⟩ := hi.names p h1
+      exact ⟨d, crc, hc, hp'⟩
+    · obtain ⟨crc, hc, hp'⟩ := hi.gnames p h1
+      exact ⟨d, crc, hc, hp'⟩
+  | unlink crc =>
+    simp only [applyOp]
+    exact inv_unlink d h fs c _ hi
+  | block crc g =>
+    simp only [applyOp]
+    have hu := inv_unlink d h fs c (storedName d crc) hi
+    refine ⟨hu.writable, hu.rw, hu.names, ?_, hu.content, hu.cached⟩
+    intro q hq
+    simp only [List.map_append, List.map_cons, List.map_nil, List.mem_append, List.mem_singleton] at hq
+    rcases hq with h1 | h1
+    · exact hu.gnames q h1
+    · exact ⟨crc, hok, h1⟩
 
-theorem lastWritten_append (h : Nat → Option Toc) (a b : List Op) (crc : Nat) :
-    lastWritten h (a ++ b) crc = lastWritten (lastWritten h a) b crc := by
-  induction a generalizing h with
-  | nil => rfl
-  | cons op r ih => cases op <;> simp only [List.cons_append, lastWritten] <;> exact ih _
-
-theorem inv_ops (d : Path) (h : Nat → Option Toc) (s : FS × Cache) (ops : List Op) (hok : ∀ op ∈ ops, op.Ok)
-    (hi : Inv d h s) : Inv d (lastWritten h ops) (applyOps d s ops) := by
-  induction ops generalizing h s with
+theorem inv_ops (d : Path) (s : HSt) (ops : List Op) (hok : ∀ op ∈ ops, op.Ok)
+    (hi : Inv d s.2 s.1) : Inv d (applyOps d s ops).2 (applyOps d s ops).1 := by
+  induction ops generalizing s with
   | nil => exact hi
   | cons op r ih =>
-    have h1 := inv_step d h s op (hok op (by simp)) hi
-    have h2 := ih (lastWritten h [op]) (applyOp d s op) (fun o ho => hok o (by simp [ho])) h1
-    have e : lastWritten h (op :: r) = lastWritten (lastWritten h [op]) r := by
-      funext crc
-      exact lastWritten_append h [op] r crc
-    rw [e]
-    exact h2
+    exact ih (applyOp d s op) (fun o ho => hok o (by simp [ho])) (inv_step d s op (hok op (by simp)) hi)
 
 theorem read_mem (fs : FS) (p : Path) (bs : List UInt8) (h : fs.read p = some bs) : p ∈ fs.files.map (·.1) := by
   unfold FS.read at h
